@@ -225,3 +225,40 @@ Example match_old_refuted :
   /\ path_matches [[ [x61]; [x62] ]] [ [x61] ] = Some false
   /\ path_leads_to [[ [x61]; [x62] ]] [ [x61] ] = Some true.
 Proof. repeat split; reflexivity. Qed.
+
+(** * the parser: fuel = number of tokens + 1 is never exhausted; the only error is BadRequest *)
+Lemma parsex_enough_fuel : forall f toks E split, (length toks < f)%nat ->
+  parsex f toks E split = PErr PBadRequest \/
+  exists ps closed rest, parsex f toks E split = POk (ps, closed, rest) /\ (length rest <= length toks)%nat.
+Proof.
+  induction f as [|f IH]; intros toks E split Hl; [lia|].
+  destruct toks as [|t tl]; simpl.
+  - right. do 3 eexists. split; [reflexivity|simpl; lia].
+  - simpl in Hl. destruct t.
+    + destruct (IH tl [] None ltac:(lia)) as [Herr|[nested [closed [rest [Hok Hlen]]]]].
+      * left. now rewrite Herr.
+      * rewrite Hok. destruct closed; simpl; [|now left].
+        destruct split as [sp|].
+        -- destruct (IH rest E (Some (expand_paths sp nested)) ltac:(lia)) as [H|[ps [c [r [H H']]]]];
+             [now left|right; do 3 eexists; split; [exact H|lia]].
+        -- destruct (IH rest (expand_paths E nested) None ltac:(lia)) as [H|[ps [c [r [H H']]]]];
+             [now left|right; do 3 eexists; split; [exact H|lia]].
+    + destruct (IH tl (finish E split) (Some []) ltac:(lia)) as [H|[ps [c [r [H H']]]]];
+        [now left|right; do 3 eexists; split; [exact H|lia]].
+    + right. do 3 eexists. split; [reflexivity|lia].
+    + destruct (IH tl E split ltac:(lia)) as [H|[ps [c [r [H H']]]]];
+        [now left|right; do 3 eexists; split; [exact H|lia]].
+    + destruct split as [sp|].
+      * destruct (IH tl E (Some (add_segment sp s)) ltac:(lia)) as [H|[ps [c [r [H H']]]]];
+          [now left|right; do 3 eexists; split; [exact H|lia]].
+      * destruct (IH tl (add_segment E s) None ltac:(lia)) as [H|[ps [c [r [H H']]]]];
+          [now left|right; do 3 eexists; split; [exact H|lia]].
+Qed.
+
+Theorem parse_never_out_of_fuel s : parse_path_expr s = PErr PBadRequest \/ exists ps, parse_path_expr s = POk ps.
+Proof.
+  unfold parse_path_expr.
+  destruct (parsex_enough_fuel (S (length (lex s))) (lex s) [] None ltac:(lia)) as [H|[ps [c [r [H _]]]]].
+  - left. now rewrite H.
+  - rewrite H. destruct c; [now left|right; eauto].
+Qed.
